@@ -30,6 +30,11 @@ RANGE = {
 }
 MAGBITS = {'u8': 8, 's8': 7, 'u16': 16, 's16': 15, 'u32': 32, 's32': 31, 'u64': 64, 's64': 63}
 RMS = ('RNE', 'RTZ', 'RTP', 'RTN')
+
+# Known findings excluded by construction (each counted through an 'excluded:...' feature tag).  Empty: every defect
+# found so far has a proposed fix under /verif/proposed_fixes/C11_*.diff.  Add 'iter-elim-body-writes' to stop generating
+# writes into a list while a zip/enumerate loop over it runs (needed on a tree without C11_iter_elim_body_writes.diff).
+EXCLUDE_KNOWN: set = set()
 CTX_TEXT = {'s8': 'fp.SINT8', 's16': 'fp.SINT16', 's32': 'fp.SINT32', 's64': 'fp.SINT64',
             'u8': 'fp.UINT8', 'u16': 'fp.UINT16', 'u32': 'fp.UINT32', 'u64': 'fp.UINT64',
             'int': 'fp.INTEGER', 'real': 'fp.REAL'}
@@ -178,6 +183,8 @@ class Fn:
         self.alias_groups = {}      # list name -> group id (names that may denote the same cells)
         self.next_group = 0
         self.ret_shape = None
+        self.frozen_groups = set()  # alias groups of lists being iterated through zip/enumerate (see is_frozen)
+        self.frozen_names = set()
 
     def fresh(self, prefix):
         self.counter += 1
@@ -216,6 +223,22 @@ class Gen:
         return c
 
     # ------------------------------------------------------------------ helpers for env
+    def is_frozen(self, fn, name):
+        """Known finding (optimize=True): EnumerateElim / ZipElim turn `for i, x in enumerate(xs)` into an indexed loop that
+        re-reads `xs[i]` each iteration, where the interpreter (and optimize=False) iterate over the tuples built at loop
+        entry -- so a body that writes the iterated list diverges.  Excluded by construction: while such a loop's body is
+        generated, no write reaches a list that may share cells with the iterated one."""
+        if 'iter-elim-body-writes' not in EXCLUDE_KNOWN:
+            return False
+        if name in fn.frozen_names:
+            self.features.add('excluded:write-into-zip-enumerate-source')
+            return True
+        g = fn.alias_groups.get(name)
+        if g is not None and g in fn.frozen_groups:
+            self.features.add('excluded:write-into-zip-enumerate-source')
+            return True
+        return False
+
     def vars_of(self, fn, pred):
         return sorted(n for n, t in fn.env.items() if pred(t))
 
@@ -405,8 +428,17 @@ class Gen:
             a, _ = self.operand(fn, C, d - 1)
             return f'fp.{ch.choice(["floor", "ceil", "trunc", "nearbyint", "roundint"])}({a})', kc
         if k == 'copysign':
+            # the sign of a NaN is not part of the property (NaN for NaN) and differs between the interpreter and the
+            # hardware (x86 invalid operations produce a negative NaN): the sign source is never a NaN by construction
             a, _ = self.operand(fn, C, d - 1)
-            b, _ = self.operand(fn, C, d - 1)
+            vs = self.scalars(fn)
+            if not vs:
+                return None
+            v = ch.choice(vs)
+            b, _ = self.coerce(v, fn.env[v].kind, C)
+            if fn.env[v].kind in FLOATS:
+                one, _ = self.coerce('1', 'u8', C)
+                b = f'({b} if ({v} == {v}) else {one})'
             return f'fp.copysign({a}, {b})', kc
         if k == 'fdim':
             a, _ = self.operand(fn, C, d - 1)
@@ -564,6 +596,9 @@ class Gen:
         self.features.add('helper-call')
         self.features.add('helper-with-own-ctx' if h.own_ctx is not None else 'helper-inherits-ctx')
         for pn, l in passed_lists:
+            if (pn in h.mutates or h.kind == 'returns-arg') and self.is_frozen(fn, l):
+                return None
+        for pn, l in passed_lists:
             if pn in h.mutates:
                 self.features.add('callee-writes-list')
                 g = fn.alias_groups.get(l)
@@ -632,7 +667,11 @@ class Gen:
             if not fl:
                 return 'False'
             self.features.add('fp-predicate')
-            return f'fp.{ch.choice(["isnan", "isinf", "isfinite", "signbit", "signbit"])}({ch.choice(fl)})'
+            p = ch.choice(["isnan", "isinf", "isfinite", "signbit", "signbit"])
+            v = ch.choice(fl)
+            if p == 'signbit':
+                return f'(({v} == {v}) and fp.signbit({v}))'      # signbit(NaN) is left open
+            return f'fp.{p}({v})'
         if k == 'anyall':
             ls = self.lists(fn)
             if not ls:
@@ -855,6 +894,8 @@ class Gen:
             if not ls:
                 return False
             l = ch.choice(ls)
+            if self.is_frozen(fn, l):
+                return False
             ek = fn.env[l].elem
             if C.kind == ek:
                 t, _ = self.operand(fn, C, ed - 1)
@@ -903,6 +944,8 @@ class Gen:
             if not lls:
                 return False
             l = ch.choice(lls)
+            if self.is_frozen(fn, l):
+                return False
             t0 = fn.env[l]
             ek = t0.elem
             if C.kind == ek:
@@ -1060,8 +1103,15 @@ class Gen:
                 fn.env[y] = Sc(fn.env[l].elem)
                 self.features.add('enumerate')
             fn.protected.add(x)
+            fz = (set(fn.frozen_groups), set(fn.frozen_names))
+            if form in ('zip', 'enum'):
+                for src in ({l, l2} if form == 'zip' else {l}):
+                    fn.frozen_names.add(src)
+                    if fn.alias_groups.get(src) is not None:
+                        fn.frozen_groups.add(fn.alias_groups[src])
             # loop-carried accumulators: only names that already exist may be reassigned (scoping rule)
             self.block(fn, C, ind + '    ', ch.int(1, 3), depth - 1, out, True, in_with)
+            fn.frozen_groups, fn.frozen_names = fz
             self.restore(fn, snap)
             self.features.add('for')
         elif k == 'while':
@@ -1119,6 +1169,8 @@ class Gen:
         """A list reachable through two names (or a name and a container slot) handed to a helper that may write it,
         then read back through the *other* access path."""
         ch = self.ch
+        if (fn.frozen_groups or fn.frozen_names) and 'iter-elim-body-writes' in EXCLUDE_KNOWN:
+            return None
         hs = [h for h in self.helpers if h.params and isinstance(h.params[0][1], (Li, LL))]
         h = ch.choice(hs)
         pt = h.params[0][1]
